@@ -39,6 +39,11 @@ type variant struct {
 
 func (v variant) nontrivial() bool { return v.sameContent && v.decodes && v.differs }
 
+// kfPadding: set padding bits in the signer bitmap of a multisig account key survive the canonical-encoding check.
+const kfPadding = "KF-C06-multisig-bitmap-padding"
+
+var excludedPadding int
+
 var secpN, _ = new(big.Int).SetString("FFFFFFFFFFFFFFFFFFFFFFFFFFFFFFFEBAAEDCE6AF48A03BBFD25E8CD0364141", 16)
 var edL, _ = new(big.Int).SetString("7237005577332262213973186563042994240857116359379907606001950938285454250989", 10)
 
@@ -181,12 +186,37 @@ func newVariantPool(tBytes []byte, tTx *lib.Transaction, signer cs.Signer) *vari
 	}
 	if signer.Kind == cs.KindMulti {
 		mv, _ := wire.Reencodings(pk, wire.MultiPublicKeySchema, 0)
-		for _, m := range mv {
-			if !m.Equivalent {
-				continue
+		stride := len(mv)/8 + 1
+		for i, m := range mv {
+			if !m.Equivalent || i%stride != 0 {
+				continue // a sample of the re-encodings of the key message is enough
 			}
 			m := m
 			add("pubkey-encoding", "multisig-key/"+m.Trick, true, func(tx *lib.Transaction) bool { tx.Signature.PublicKey = m.Bytes; return true })
+		}
+		// unused (padding) bits of the signer bitmap: same signers, same aggregate signature, other key bytes
+		if ev.Open(kfPadding) {
+			excludedPadding++
+		} else {
+			for _, bit := range []uint{7, 6, 3} {
+				bit := bit
+				add("pubkey-encoding", fmt.Sprintf("multisig-bitmap-padding-bit%d", bit), true, func(tx *lib.Transaction) bool {
+					if int(bit) < len(signer.Multi.Members) {
+						return false
+					}
+					fs, err := wire.Parse(pk)
+					if err != nil {
+						return false
+					}
+					for i := range fs {
+						if fs[i].Num == 2 && len(fs[i].B) > 0 {
+							fs[i].B[len(fs[i].B)-1] |= 1 << bit
+						}
+					}
+					tx.Signature.PublicKey = wire.Encode(fs)
+					return true
+				})
+			}
 		}
 	}
 	// malleated signatures
@@ -335,7 +365,7 @@ var replayMsgTypes = cs.ScenarioTypes
 var _, theCast = cs.RichGenesis(1, cs.GenesisOpts{})
 
 func drawSigner(rt *rapid.T, mt string, salt int) cs.Signer {
-	kinds := []int{cs.KindBLS, cs.KindEd, cs.KindSecp, cs.KindEth, cs.KindMulti}
+	kinds := []int{cs.KindBLS, cs.KindEd, cs.KindSecp, cs.KindEth, cs.KindMulti, cs.KindMulti}
 	if cs.RLPSupports(mt) {
 		kinds = append(kinds, cs.KindRLP, cs.KindRLP, cs.KindRLPV2, cs.KindRLPV2)
 	}
@@ -441,7 +471,11 @@ func TestC06Replay(t *testing.T) {
 			rt.Fatalf("harness: cannot build T: %v", err)
 		}
 		cse.ClassIf(tH == 1, "T-at-height-1")
+		excludedPadding = 0
 		pool := newVariantPool(tBytes, tTx, signer)
+		for i := 0; i < excludedPadding; i++ {
+			rec.Exclude(kfPadding)
+		}
 		preScan, _ := c.Scan()
 		nontriv := false
 		note := func(v variant, place string) {
@@ -521,10 +555,6 @@ func TestC06Replay(t *testing.T) {
 		}
 		res := summarize(out)
 		tHash := crypto.HashString(tBytes)
-		if !res.included[tHash] {
-			// not a property violation: the generator built an invalid T
-			rt.Fatalf("harness: T itself was rejected: %s", res.failed[tHash])
-		}
 		for i, v := range append(append([]variant{}, before...), after...) {
 			place := "same-block-before-T"
 			if i >= len(before) {
@@ -537,6 +567,10 @@ func TestC06Replay(t *testing.T) {
 			if res.included[crypto.HashString(v.bz)] {
 				rt.Fatalf("VIOLATION C06: variant [%s] (same signed content=%v) was executed in the SAME block as T (T=%s V=%s)", v.label, v.sameContent, tHash, crypto.HashString(v.bz))
 			}
+		}
+		if !res.included[tHash] {
+			// not a property violation: the generator built an invalid T
+			rt.Fatalf("harness: T itself was rejected: %s", res.failed[tHash])
 		}
 		tout := mustBlock(rt, twin, cs.BlockSpec{Txs: [][]byte{tBytes}, Time: tm}, "twin block k")
 		if tout.Err != nil || len(tout.Results.Failed) != 0 {
